@@ -22,7 +22,7 @@ def run(fw):
         'h_conversions': dict(unwind=n + 2, rules=vfw.std_rules(string=16)),
         'h_units_prefix': dict(unwind=n + 2, rules=vfw.std_rules(string=16, vector=8)),
         'h_printed_real': dict(unwind=n + 2, rules=vfw.std_rules()),
-        'h_printed_int': dict(unwind=4, rules=vfw.std_rules(string=13, extra=[(r'all_of', 13), (r'isNonNegativeCellMLInteger|isCellMLInteger', 13)])),
+        'h_printed_int': dict(unwind=13, rules=vfw.std_rules(string=13)),
     }
     roots = ROOTS if fw.tier == 'thorough' else [r for r in ROOTS if r != 'h_units_prefix']
     to = 900 if fw.tier == 'quick' else 3000
